@@ -5,6 +5,13 @@ spec/SplitIntoBinsSem.tla   CellOf (half-open cells), SubFlow, InnerSem, SIBSem 
 spec/SplitIntoBins.tla      fill / compute / IterateBins machine with per-cell state; TLC: PerCell, NoCrossTalk,
                             OutsideIgnored, ComputeZip, IterOnceEach, MapShape
 spec/Trace_SplitIntoBins.tla   validation of recorded runs with real-valued edges (rank-abstracted)
+
+Dimensions beyond the plain flow: values on which the cell's analysis raises (FillRaises / Propagates: the
+caller of fill() gets the exception of the private copy, for inside values only); analyses whose compute()
+changes their own state (cst / OwnState: a counting post-element, a counter kept in the yielded context
+object) - cells that share an object show counts no private copy produces; one IterateBins element given
+histograms of two SplitIntoBins (same analysis object, same edges object, different argument variables) and
+run twice (IterFlow / OwnDescription: context.bin describes the cell in terms of its own histogram's variable).
 """
 import concurrent.futures
 import copy
@@ -13,7 +20,7 @@ import random
 from .. import core
 from .. import binslib as bl
 
-ACTIONS = ("FillInside", "FillUnderflow", "FillOverflow", "StartCompute", "ComputeNext", "WriteCtx", "ComputeStop",
+ACTIONS = ("FillInside", "FillRaises", "FillUnderflow", "FillOverflow", "StartCompute", "ComputeNext", "WriteCtx", "ComputeStop", "IterHist",
            "IterNext", "Mutate", "IterEnd")
 
 
@@ -38,19 +45,28 @@ def consume(gen):
     for k, res in enumerate(gen, 1):
         if isinstance(res, tuple) and len(res) == 2 and isinstance(res[1], dict):
             snap = copy.deepcopy(res[1])
+            # the histogram as it arrived (an analysis may yield its own objects and change them later)
+            hist = copy.deepcopy(res[0])
             res[1]["touched"] = k
             if isinstance(res[1].get("variable"), dict):
                 res[1]["variable"]["touched"] = k
-            got.append((res[0], snap, res[1]))
+            got.append((hist, snap, res[1]))
         else:
             got.append((res, None, None))
     return got
 
 
+def has_failing(rec):
+    return any(v.get("f", "none") != "none" for v in rec["flow"])
+
+
 def run_sib(rec, variant):
     """The real SplitIntoBins on the scenario, used again as the specification does: compute() after
     rec["cut"] values, once more at once, the rest of the flow, compute().  Variant 2/3 (only when
-    compute() is due after the whole flow) drives it through Sequence.run instead."""
+    compute() is due after the whole flow) drives it through Sequence.run instead.
+    Next to it a second SplitIntoBins is built from the same analysis object and the same edges object
+    with another argument variable (same routing) and driven through the same history, value by value.
+    The caller of fill() catches what it raises on the values the analysis cannot digest."""
     import lena.core
     import lena.structures as ls
     dim = len(rec["edges"])
@@ -58,28 +74,48 @@ def run_sib(rec, variant):
     given_edges = copy.deepcopy(edges)
     style = 0 if dim == 1 else (variant + len(rec["flow"]) + rec["cut"]) % 3
     av = bl.arg_var(1) if dim == 1 else bl.arg_var2(style)
+    av_y = bl.arg_var_y(dim, style)
     var_before = copy.deepcopy(av.var_context)
-    els = bl.elements(rec["kind"])
+    els = bl.elements_for(rec["kind"], guard=(variant % 2 == 0 and has_failing(rec)))
     bare = bool(variant % 2) and len(els) == 1
     seq = els[0] if bare else lena.core.FillComputeSeq(*els)
     template = [el for el in els if isinstance(el, bl.Collect)]
     sib = ls.SplitIntoBins(seq, av, given_edges)
-    values = bl.make_values(rec["flow"], dim, False, pairs=bl.duck_pair if variant % 4 == 1 else None)
+    pairs = bl.duck_pair if variant % 4 == 1 else None
+    values = bl.make_values(rec["flow"], dim, False, pairs=pairs)
     cut = rec["cut"]
     problems = []
+    second = None
     if variant >= 2 and cut == len(values):
         computes = [consume(lena.core.Sequence(sib).run(iter(values)))]
         expected = [rec["computes"][-1]]
+        errs = []
     else:
-        computes, expected = [], rec["computes"]
-        for v in values[:cut]:
-            sib.fill(v)
-        computes.append(consume(sib.compute()))
-        computes.append(consume(sib.compute()))
-        if cut < len(values):
-            for v in values[cut:]:
-                sib.fill(v)
+        sib_y = ls.SplitIntoBins(seq, av_y, given_edges)
+        values_y = bl.make_values(rec["flow"], dim, False, pairs=pairs)
+        computes, computes_y, errs, errs_y, expected = [], [], [], [], rec["computes"]
+
+        def fill(lo, hi):
+            for i in range(lo, hi):
+                for one, vals, log in ((sib, values, errs), (sib_y, values_y, errs_y)):
+                    try:
+                        one.fill(vals[i])
+                    except Exception as exc:   # noqa
+                        if rec["flow"][i].get("f", "none") == "none":
+                            raise
+                        log.append({"pos": i + 1, "exc": type(exc).__name__})
+
+        def compute():
             computes.append(consume(sib.compute()))
+            computes_y.append(consume(sib_y.compute()))
+
+        fill(0, cut)
+        compute()
+        compute()
+        if cut < len(values):
+            fill(cut, len(values))
+            compute()
+        second = (computes_y, errs_y, av_y, values_y)
     if any(t.ids for t in template):
         problems.append("the analysis object given to the constructor is filled itself")
     if given_edges != edges or type(given_edges) is not type(edges):
@@ -102,7 +138,45 @@ def run_sib(rec, variant):
                                     % ("another yielded context" if name.startswith("histogram") else name.rstrip(" 0123456789")))
                     break
             owners.append(("histogram %d.%d" % (c, k), mine))
-    return computes, expected, av, edges, dim, values, problems, style
+    return computes, expected, av, edges, dim, values, problems, style, errs, second
+
+
+def check_errs(rec, errs, worst, size, where):
+    """fill() raises what the cell's private copy raises: for the failing values inside the edges, in
+    order, with the exception of the analysis - and for no other value."""
+    want = rec["errs"]
+    if errs == want:
+        return True
+    base = {"scenario": bl.scen_text(rec), "where": where, "expected": want, "observed": errs}
+    got_pos, want_pos = [e["pos"] for e in errs], [e["pos"] for e in want]
+    if [p for p in want_pos if p not in got_pos]:
+        kind = "a value inside the edges does not reach the caller as the exception of its cell's analysis (silently dropped)"
+    elif [p for p in got_pos if p not in want_pos]:
+        kind = "a value outside the edges reaches an analysis"
+    else:
+        kind = "fill() raises another exception than the analysis of the cell"
+    worst.add(kind, size, base)
+    return False
+
+
+def check_run_raises(rec, variant, worst, size):
+    """Sequence(SplitIntoBins).run on a flow with a value the cell's analysis cannot digest ends with that
+    exception (nothing is caught on the way)."""
+    import lena.core
+    import lena.structures as ls
+    dim = len(rec["edges"])
+    edges = bl.in_form(bl.py_edges(rec["edges"], False), rec.get("form", "l"))
+    av = bl.arg_var(1) if dim == 1 else bl.arg_var2(0)
+    sib = ls.SplitIntoBins(bl.make_seq(rec["kind"], guard=bool(variant % 2)), av, edges)
+    try:
+        list(lena.core.Sequence(sib).run(iter(bl.make_values(rec["flow"], dim, False))))
+        got = None
+    except Exception as exc:   # noqa
+        got = type(exc).__name__
+    if got != rec["errs"][0]["exc"]:
+        worst.add("a value inside the edges does not reach the caller as the exception of its cell's analysis (silently dropped)"
+                  if got is None else "fill() raises another exception than the analysis of the cell", size,
+                  {"scenario": bl.scen_text(rec), "where": "run", "expected": rec["errs"][0]["exc"], "observed": got})
 
 
 def ctx_dict(c):
@@ -117,12 +191,14 @@ def ctx_dict(c):
 
 def check_contexts(rec, exp, comp, av, worst, size, where):
     """Every histogram arrives with the last inside value's context as it arrived + variable of the
-    argument variable - nothing an inner element or the consumer of an earlier histogram wrote."""
+    argument variable - nothing an inner element or the consumer of an earlier histogram wrote.
+    (hctx_any: whether a value on which the analysis raised counts as filled is left open.)"""
     base = {"scenario": bl.scen_text(rec), "where": where}
     ok = True
     want = dict(ctx_dict(exp["hctx"]), variable=av.var_context)
+    allowed = [dict(ctx_dict(c), variable=av.var_context) for c in exp.get("hctx_any", [exp["hctx"]])]
     for k, (hist, snap, live) in enumerate(comp):
-        if snap != want:
+        if snap not in allowed:
             ok = False
             kind = ("context.variable does not describe the argument variable"
                     if (snap or {}).get("variable") != av.var_context else
@@ -169,82 +245,129 @@ def check_hists(rec, exp, out, av, edges, dim, worst, size, where):
             ok = False
             ids_exp = bl.md_map(lambda r: r["ids"], exp[k], dim)
             ids_got = bl.md_map(lambda r: r["ids"], got, dim)
+            if rec["kind"] == "seen":       # the last number is the count of the stateful element
+                ids_exp, ids_got = bl.md_map(lambda i: i[:-1], ids_exp, dim), bl.md_map(lambda i: i[:-1], ids_got, dim)
             kind = "a cell holds other values" if (ids_exp != ids_got and rec["kind"] != "shift") else "cell results differ"
+            if kind == "cell results differ" and rec["kind"] in bl.STATEFUL:
+                kind = "state of a cell's analysis is not that of a private copy with the same history (shared between cells?)"
             worst.add(kind, size, dict(base, histogram=k, expected=exp[k], observed=got))
     return ok
 
 
-def check_iter(rec, out, edges, dim, worst, size, style):
+def named_edges_str(cell_edges, var_context=None):
+    """A create_edges_str of the caller's."""
+    return "%s:%r" % ((var_context or {}).get("name"), cell_edges)
+
+
+def check_iter(rec, out, out_y, avs, edges, dim, worst, size, style, variant):
+    """ONE IterateBins element on the histograms the specification names (IterFlow): var "x" - of the
+    SplitIntoBins under test, var "y" - of the second one; run 1, then the same element run again."""
     import lena.structures as ls
     if not out:
         return
     base = {"scenario": bl.scen_text(rec), "where": "IterateBins"}
-    hist, context = copy.deepcopy(out[0])
     marker = ("not a histogram", {"m": 1})
     kw = {"select_bins": (lambda _: True)}
-    if dim == 2 and style != 0:
+    if (dim == 2 and style != 0) or variant == 1:
         # one Variable for two coordinates has one name only: edges are rendered by the caller
-        kw["create_edges_str"] = lambda cell_edges, var_context=None: repr(cell_edges)
-    pristine = copy.deepcopy(context)
-    got, npulled = [], 0
+        kw["create_edges_str"] = named_edges_str
+        render = named_edges_str
+    else:
+        render = ls.cell_to_string
     try:
-        # the consumer of the specification: pull one cell, write into its context.bins, pull the next
-        for x in ls.IterateBins(**kw).run(iter([5, (hist, context), marker])):
-            got.append(x)
-            if isinstance(x, tuple) and len(x) == 2 and isinstance(x[1], dict) and isinstance(x[1].get("bins"), dict) \
-                    and x is not marker:
-                npulled += 1
-                if x[1]["bins"] != pristine:
-                    worst.add("IterateBins: context.bins of a cell is not the histogram's context (a consumer's write "
-                              "into an earlier cell shows up)", size, dict(base, position=npulled, expected=repr(pristine),
-                                                                        observed=repr(x[1]["bins"])))
-                x[1]["bins"]["touched"] = npulled
-                x[1]["bins"].setdefault("variable", {})["touched"] = npulled
+        element = ls.IterateBins(**kw)
     except Exception as exc:   # noqa
         worst.add("IterateBins raised %s" % type(exc).__name__, size, dict(base, exception=repr(exc)))
         return
-    if context != pristine:
-        worst.add("IterateBins: a consumer's write into a cell's context.bins changes the histogram's context", size,
-                  dict(base, expected=repr(pristine), observed=repr(context)))
-    # no two yielded contexts share a mutable object, none shares one with the histogram's context
+    ncells = len(rec["iters"][0]["cells"])
     from ..util import reach_ids
-    owners = [("histogram context", set(reach_ids(context)))]
-    for n, x in enumerate(got):
-        if isinstance(x, tuple) and len(x) == 2 and isinstance(x[1], dict) and x is not marker:
-            mine = set(reach_ids(x[1]))
-            for name, other in owners:
-                if mine & other:
-                    worst.add("IterateBins: two yielded contexts (or one and the histogram's) share a mutable object", size,
-                              dict(base, position=n, shares_with=name))
-                    break
-            owners.append(("cell %d" % n, mine))
-    if not got or got[0] != 5 or got[-1] is not marker:
-        worst.add("IterateBins changes values that are not histograms", size, dict(base, observed=repr(got)[:300]))
-        return
-    cells = got[1:-1]
-    exp = rec["iter"]
-    if len(cells) != len(exp):
-        worst.add("IterateBins: number of cells", size, dict(base, expected=len(exp), observed=len(cells)))
-        return
-    # the order of enumeration is not fixed by the statement: cells are matched by their edges
-    try:
-        cells = sorted(cells, key=lambda c: lists(c[1]["bin"]["edges"]))
-    except Exception as exc:   # noqa
-        worst.add("IterateBins: malformed value", size, dict(base, observed=repr(cells)[:300], exception=repr(exc)))
-        return
-    for n, (c, e) in enumerate(zip(cells, exp)):
+    position = 0
+    for run in sorted(set(f["run"] for f in rec["iters"])):
+        entries = [f for f in rec["iters"] if f["run"] == run]
+        hists = [copy.deepcopy((out if f["var"] == "x" else out_y)[f["k"] - 1]) for f in entries]
+        pristine = [copy.deepcopy(h[1]) for h in hists]
+        flow = ([5] if run == 1 else []) + hists + [marker]
+        got, npulled = [], 0
         try:
-            data, ctx = c
-            content = bl.enc_result(c)
-            cell_edges = lists(ctx["bin"]["edges"])
+            # the consumer of the specification: pull one cell, write into its context.bins (cells of the
+            # first histogram), pull the next
+            for x in element.run(iter(flow)):
+                got.append(x)
+                if isinstance(x, tuple) and len(x) == 2 and isinstance(x[1], dict) and isinstance(x[1].get("bins"), dict) \
+                        and x is not marker:
+                    npulled += 1
+                    mine = pristine[min((npulled - 1) // max(ncells, 1), len(pristine) - 1)]
+                    if x[1]["bins"] != mine:
+                        worst.add("IterateBins: context.bins of a cell is not the histogram's context (a consumer's write "
+                                  "into an earlier cell shows up)", size, dict(base, run=run, position=npulled, expected=repr(mine),
+                                                                            observed=repr(x[1]["bins"])))
+                    if run == 1 and npulled <= ncells:
+                        x[1]["bins"]["touched"] = npulled
+                        x[1]["bins"].setdefault("variable", {})["touched"] = npulled
         except Exception as exc:   # noqa
-            worst.add("IterateBins: malformed value", size, dict(base, observed=repr(c)[:300], exception=repr(exc)))
+            worst.add("IterateBins raised %s" % type(exc).__name__, size, dict(base, run=run, exception=repr(exc)))
             return
-        if content != e["content"]:
-            worst.add("IterateBins: cell content or context of another cell", size,
-                      dict(base, position=n, expected=e["content"], observed=content))
-        if cell_edges != e["e"]:
-            worst.add("IterateBins: edges of another cell", size, dict(base, position=n, expected=e["e"], observed=cell_edges))
+        for (hist, context), before in zip(hists, pristine):
+            if context != before:
+                worst.add("IterateBins: a consumer's write into a cell's context.bins changes the histogram's context", size,
+                          dict(base, run=run, expected=repr(before), observed=repr(context)))
+        # no two yielded contexts share a mutable object, none shares one with a histogram's context
+        owners = [("histogram context", set(reach_ids(h[1]))) for h in hists]
+        for n, x in enumerate(got):
+            if isinstance(x, tuple) and len(x) == 2 and isinstance(x[1], dict) and x is not marker:
+                mine = set(reach_ids(x[1]))
+                for name, other in owners:
+                    if mine & other:
+                        worst.add("IterateBins: two yielded contexts (or one and the histogram's) share a mutable object", size,
+                                  dict(base, run=run, position=n, shares_with=name))
+                        break
+                owners.append(("cell %d" % n, mine))
+        if run == 1:
+            if not got or got[0] != 5:
+                worst.add("IterateBins changes values that are not histograms", size, dict(base, observed=repr(got)[:300]))
+                return
+            got = got[1:]
+        if not got or got[-1] is not marker:
+            worst.add("IterateBins changes values that are not histograms", size, dict(base, observed=repr(got)[:300]))
+            return
+        allcells = got[:-1]
+        if len(allcells) != ncells * len(entries):
+            worst.add("IterateBins: number of cells", size, dict(base, run=run, expected=ncells * len(entries), observed=len(allcells)))
+            return
+        for h, f in enumerate(entries):
+            position += 1
+            where = dict(base, run=run, histogram="number %d of the SplitIntoBins by variable %s" % (f["k"], f["var"]),
+                         place_in_flow=position)
+            cells = allcells[h * ncells:(h + 1) * ncells]
+            exp = f["cells"]
+            content_of = rec["hists"][f["k"] - 1]
+            var_context = avs[f["var"]].var_context
+            # the order of enumeration is not fixed by the statement: cells are matched by their edges
+            try:
+                cells = sorted(cells, key=lambda c: lists(c[1]["bin"]["edges"]))
+            except Exception as exc:   # noqa
+                worst.add("IterateBins: malformed value", size, dict(where, observed=repr(cells)[:300], exception=repr(exc)))
+                return
+            for n, (c, e) in enumerate(zip(cells, exp)):
+                try:
+                    data, ctx = c
+                    content = bl.enc_result(c)
+                    cell_edges = lists(ctx["bin"]["edges"])
+                    edges_str = ctx["bin"]["edges_str"]
+                    own = render(ctx["bin"]["edges"], var_context=copy.deepcopy(var_context))
+                except Exception as exc:   # noqa
+                    worst.add("IterateBins: malformed value", size, dict(where, observed=repr(c)[:300], exception=repr(exc)))
+                    return
+                want = bl.md_get(content_of, [i - 1 for i in e["idx"]])
+                if content != want:
+                    worst.add("IterateBins: cell content or context of another cell", size,
+                              dict(where, position=n, expected=want, observed=content))
+                if cell_edges != e["bin"]["e"]:
+                    worst.add("IterateBins: edges of another cell", size, dict(where, position=n, expected=e["bin"]["e"], observed=cell_edges))
+                elif edges_str != own:
+                    # bin.var of the specification: the description is in terms of the cell's own histogram's variable
+                    worst.add("IterateBins: context.bin does not describe the cell in terms of its own histogram's variable", size,
+                              dict(where, position=n, variable=e["bin"]["var"], expected=own, observed=edges_str))
 
 
 def check_maps(rec, out, edges, dim, worst, size):
@@ -292,15 +415,20 @@ def replay(ctx, rec, n, worst):
     if rec["form"] != "l":
         size = (size[0], size[1] + 1, size[2])          # witnesses with plain lists are preferred
     for variant in ((n % 2, 2 + n % 2) if n % 5 == 0 else (n % 4,) if n % 4 < 2 else (n % 2,)):
+        if variant >= 2 and rec["errs"]:
+            check_run_raises(rec, variant, worst, size)      # the run ends with the exception
+            continue
+        if variant >= 2 and rec["kind"] in bl.STATEFUL:
+            variant = variant % 2       # the computes of the specification are those of one object used again
         where = "run" if variant >= 2 else "fill/compute"
         try:
-            computes, expected, av, edges, dim, values, problems, style = run_sib(rec, variant)
+            computes, expected, av, edges, dim, values, problems, style, errs, second = run_sib(rec, variant)
         except Exception as exc:   # noqa
             worst.add("raised %s" % type(exc).__name__, size, {"scenario": bl.scen_text(rec), "exception": repr(exc), "where": where})
             continue
         for p in problems:
             worst.add(p, size, {"scenario": bl.scen_text(rec), "where": where})
-        ok = True
+        ok = check_errs(rec, errs, worst, size, where)
         for c, (comp, exp) in enumerate(zip(computes, expected)):
             w = "%s, compute() number %d after %d values" % (where, c + 1, exp["n"])
             out = [(h, snap) for h, snap, _ in comp]
@@ -308,8 +436,20 @@ def replay(ctx, rec, n, worst):
             ok = check_contexts(rec, exp, comp, av, worst, size, w) and ok
         ok = check_flow_contexts(rec, values, worst, size, where) and ok
         out = [(h, snap) for h, snap, _ in computes[-1]]
+        out_y = None
+        if second is not None:
+            # the second SplitIntoBins (same analysis object, same edges object, another variable): the same
+            computes_y, errs_y, av_y, values_y = second
+            wy = "second SplitIntoBins built from the same analysis and edges objects"
+            ok = check_errs(rec, errs_y, worst, size, wy) and ok
+            for c, (comp, exp) in enumerate(zip(computes_y, expected)):
+                w = "%s, compute() number %d after %d values" % (wy, c + 1, exp["n"])
+                ok = check_hists(rec, exp["hists"], [(h, snap) for h, snap, _ in comp], av_y, edges, dim, worst, size, w) and ok
+                ok = check_contexts(rec, exp, comp, av_y, worst, size, w) and ok
+            ok = check_flow_contexts(rec, values_y, worst, size, wy) and ok
+            out_y = [(h, snap) for h, snap, _ in computes_y[-1]]
         if ok and variant < 2:
-            check_iter(rec, out, edges, dim, worst, size, style)
+            check_iter(rec, out, out_y, {"x": av, "y": av_y}, edges, dim, worst, size, style, variant)
             if n % 3 == 0 or len(rec["flow"]) <= 1:
                 check_maps(rec, out, edges, dim, worst, size)
     ctx.case(["sib", rec["edges"], rec["form"], rec["flow"], rec["kind"], rec["cut"]], nontrivial=len(rec["flow"]) > 0)
@@ -482,20 +622,32 @@ def record_runs(ctx, rnd, n, worst):
         kind = rnd.choice(bl.KINDS)
         hs = [rnd.random() < 0.7 for _ in coords]
         ps = [h or rnd.random() < 0.4 for h in hs]          # some values are (data, {}) pairs
+        # in some runs the analysis cannot digest some of the values
+        excs = ("IndexError", "LenaIndexError", "KeyError", "TypeError", "ValueError")
+        fs = [rnd.choice(excs) if rnd.random() < 0.25 else "none" for _ in coords] if rnd.random() < 0.3 else ["none"] * len(coords)
         redges, rcoords = bl.rank_abstract(edges, coords)
         form = rnd.choice(["l", "l", "t"] if dim == 1 else ["l", "l", "t", "lt", "tl"])
         rec = {"edges": redges, "form": form, "kind": kind,
-               "flow": [{"x": c, "h": h, "p": p} for c, h, p in zip(rcoords, hs, ps)]}
+               "flow": [{"x": c, "h": h, "p": p, "f": f} for c, h, p, f in zip(rcoords, hs, ps, fs)]}
         real_edges = bl.in_form(edges[0] if dim == 1 else edges, form)
         av = bl.arg_var(1) if dim == 1 else bl.arg_var2(0)
-        values = []
-        for i, (c, h, p) in enumerate(zip(coords, hs, ps)):
-            data = (i + 1, c[0] if dim == 1 else tuple(c))
-            values.append((data, {"src": i + 1}) if h else ((data, {}) if p else data))
+        def mkvalues():
+            vals = []
+            for i, (c, h, p, f) in enumerate(zip(coords, hs, ps, fs)):
+                data = (i + 1, c[0] if dim == 1 else tuple(c)) + (() if f == "none" else (f,))
+                vals.append((data, {"src": i + 1}) if h else ((data, {}) if p else data))
+            return vals
+        values = mkvalues()
         try:
-            sib = ls.SplitIntoBins(bl.make_seq(kind), av, copy.deepcopy(real_edges))
-            for v in values:
-                sib.fill(v)
+            sib = ls.SplitIntoBins(bl.make_seq(kind, guard=rnd.random() < 0.5), av, copy.deepcopy(real_edges))
+            rec["errs"] = []
+            for i, v in enumerate(values):
+                try:
+                    sib.fill(v)
+                except Exception as exc:   # noqa
+                    if fs[i] == "none":
+                        raise
+                    rec["errs"].append({"pos": i + 1, "exc": type(exc).__name__})     # what the caller of fill() gets
             out = list(sib.compute())
             rec["hists"] = [bl.md_map(bl.enc_result, h.bins, dim) for h, _ in out]
             hc = out[0][1] if out else {}
@@ -511,6 +663,26 @@ def record_runs(ctx, rnd, n, worst):
                 cells = list(ls.IterateBins(select_bins=lambda _: True).run(iter([copy.deepcopy(out[0])])))
                 rec["iter"] = sorted([[maps[d][lo], maps[d][hi]] for d, (lo, hi) in enumerate(c[1]["bin"]["edges"])]
                                      for c in cells)       # order of enumeration not fixed by the statement
+            # one IterateBins element over this histogram and one of a second SplitIntoBins that splits by
+            # another variable over the same edges: which variable does context.bin of every cell name?
+            rec["has2"], rec["iter2"] = bool(out) and rnd.random() < 0.4, []
+            if rec["has2"]:
+                av_y = bl.arg_var_y(dim, 0)
+                sib_y = ls.SplitIntoBins(bl.make_seq(kind, guard=True), av_y, copy.deepcopy(real_edges))
+                for i, v in enumerate(mkvalues()):
+                    try:
+                        sib_y.fill(v)
+                    except Exception:   # noqa
+                        if fs[i] == "none":
+                            raise
+                out_y = list(sib_y.compute())
+                element = ls.IterateBins(create_edges_str=named_edges_str, select_bins=lambda _: True)
+                cells = list(element.run(iter([copy.deepcopy(out[0]), copy.deepcopy(out_y[0])])))
+                names = {av.var_context["name"]: "x", av_y.var_context["name"]: "y"}
+                named = [{"var": names.get(c[1]["bin"]["edges_str"].split(":")[0], "?"),
+                          "e": [[maps[d][lo], maps[d][hi]] for d, (lo, hi) in enumerate(c[1]["bin"]["edges"])]} for c in cells]
+                half = len(named) // 2
+                rec["iter2"] = sorted(named[:half], key=lambda c: c["e"]) + sorted(named[half:], key=lambda c: c["e"])
         except Exception as exc:   # noqa
             size = (10 ** 6 + len(coords), 0, core.canon(rec))
             worst.add("raised %s" % type(exc).__name__, size, {"scenario": bl.scen_text(rec), "exception": repr(exc),
@@ -543,7 +715,10 @@ def make_demo(recs):
     demo = []
     for r in reversed(recs[-5000:]):
         d = {"edges": r["edges"], "form": r["form"], "kind": r["kind"], "flow": r["flow"], "hists": r["hists"],
-             "iter": [c["e"] for c in r["iter"]], "hctx": r["hctx"], "vctx": r["vctx"]}
+             "iter": [c["e"] for c in r["iter"]], "hctx": r["hctx"], "vctx": r["vctx"], "errs": r["errs"],
+             "has2": bool(r["iters"]), "iter2": [{"var": f["var"], "e": c["bin"]["e"]} for f in r["iters"][:2] for c in f["cells"]]}
+        if r["kind"] in bl.STATEFUL:
+            continue            # (the last compute() of the specification's object is not its first)
         if corrupt(d) is not None:          # a record in which a value can be moved to the next cell
             demo.append(d)
             if len(demo) == 40:
@@ -559,22 +734,28 @@ def run(ctx):
                "pairs; edges and coordinates enter the specification as ranks (only comparisons are used)")
     ctx.assume("2-dimensional argument variables are a Combine of two variables, or one Variable returning a pair "
                "with the caller supplying create_edges_str to IterateBins (one name cannot label two coordinates)")
-    # the model-checking run and the export run are independent: side by side
-    with concurrent.futures.ThreadPoolExecutor(max_workers=2) as pool:
-        f_mc = pool.submit(ctx.mc, "SplitIntoBins", "SplitIntoBins_%s.cfg" % tag, coverage=True, must_cover=ACTIONS)
-        f_ex = pool.submit(ctx.export, "SplitIntoBins", "SplitIntoBins_%s_export.cfg" % tag, min_records=1000)
+    # the model-checking run and the export run are independent: side by side; the replay of the exported
+    # behaviours starts as soon as they are there (the model-checking result is collected below)
+    pool = concurrent.futures.ThreadPoolExecutor(max_workers=2)
+    f_mc = pool.submit(ctx.mc, "SplitIntoBins", "SplitIntoBins_%s.cfg" % tag, coverage=True, must_cover=ACTIONS)
+    f_ex = pool.submit(ctx.export, "SplitIntoBins", "SplitIntoBins_%s_export.cfg" % tag, min_records=1000)
+    try:
         recs = f_ex.result()
-        f_mc.result()
+    except Exception:
+        f_mc.result()          # (a broken specification: the model checker's message says more)
+        raise
     worst = bl.Worst()
     seen = set()
     for n, rec in enumerate(recs):
         replay(ctx, rec, n, worst)
         key = core.canon([rec["edges"], rec["form"], rec["flow"]])
-        if key not in seen and n % (2 if ctx.thorough else 3) == 0:
+        if key not in seen and n % (2 if ctx.thorough else 3) == 0 and not has_failing(rec):
             seen.add(key)
             second_oracle(ctx, rec, worst)
     ctx.sample({"spec_behaviour": recs[len(recs) // 2]})
     ctx.sample({"spec_behaviour": recs[-1]})
+    f_mc.result()              # TLC has checked the properties on every behaviour replayed above
+    pool.shutdown()
     trace = record_runs(ctx, rnd, 4000 if ctx.thorough else 1200, worst)
     clean = [{k: v for k, v in r.items() if k != "real"} for r in trace]
     demo_pool = concurrent.futures.ThreadPoolExecutor(max_workers=1)
@@ -597,8 +778,10 @@ def run(ctx):
     return ctx.finish(
         rule="S2C: every scenario of the bounded model (1-d edges with 1-3 cells, 2-d 2x2 / 2x1 / 1x3, written as lists or "
              "tuples at either level; flows with "
-             "coordinates below, on every edge, inside every cell and above; eight inner analyses) on the real "
-             "SplitIntoBins (fill/compute and run), IterateBins and MapBins; second oracle: lena's own accumulators "
+             "coordinates below, on every edge, inside every cell and above, with values the cell's analysis raises on; "
+             "ten inner analyses, two of them changed by their own compute()) on the real "
+             "SplitIntoBins (fill/compute and run; a second one built from the same analysis and edges objects with another "
+             "variable next to it), one IterateBins element over histograms of both and run twice, and MapBins; second oracle: lena's own accumulators "
              "against a private copy on the sub-flows routed by the specification; non-trivial = flow not empty; "
              "C2S: seeded random real-valued edges and flows (rank-abstracted) validated by Trace_SplitIntoBins",
         exhaustive=True)
